@@ -122,26 +122,36 @@ func (gs *rootServer) run(ctx context.Context) (err error) {
 	defer listener.Close()
 
 	mux := cmux.New(listener)
+	// the matchers are registered before the mux starts to serve, `mux.Match` is not thread-safe
+	lsns := matchServers(mux, gs.services)
 	go func() {
 		defer util.Recover()
 		klog.InfoS("root server start to listen", "port", gs.port)
-		err = mux.Serve()
-		klog.ErrorS(err, "root server shutdown cause by temporary network error", "port", gs.port)
+		serveErr := mux.Serve()
+		klog.ErrorS(serveErr, "root server shutdown cause by temporary network error", "port", gs.port)
 		return
 	}()
 
-	return runServers(ctx, mux, gs.services)
+	return runServers(ctx, lsns, gs.services)
 }
 
-// runServers run servers concurrently and shutdown all servers if anyone is error
-func runServers(ctx context.Context, mux cmux.CMux, servers []exposedServer) (err error) {
+// matchServers registers the matcher of every server and returns their listeners
+// ! NOTICE: `mux.Match` is not thread-safe, so it should be called serially and before `mux.Serve`.
+func matchServers(mux cmux.CMux, servers []exposedServer) []net.Listener {
+	lsns := make([]net.Listener, 0, len(servers))
+	for _, server := range servers {
+		lsns = append(lsns, mux.Match(server.matcher()))
+	}
+	return lsns
+}
+
+// runServers run servers concurrently on their listeners and shutdown all servers if anyone is error
+func runServers(ctx context.Context, lsns []net.Listener, servers []exposedServer) (err error) {
 	ctx, cancel := context.WithCancel(ctx)
 	defer cancel()
 	group, ctx := errgroup.WithContext(ctx)
-	for _, server := range servers {
-
-		// ! NOTICE: `mux.Match` is not thread-safe, so it should be called serially.
-		lsn := mux.Match(server.matcher())
+	for i, server := range servers {
+		lsn := lsns[i]
 
 		runner := runSubServer(ctx, lsn, server)
 		group.Go(func() (err error) {
@@ -172,9 +182,10 @@ func runSubServer(ctx context.Context, lsn net.Listener, server exposedServer) f
 
 			// run until server is closed or has an internal error
 			klog.InfoS("run server", "name", server.name(), "addr", lsn.Addr())
-			if err = server.serve(lsn); err != nil {
-				klog.ErrorS(err, "exposed server stop", "name", server.name(), "addr", lsn.Addr())
-				closed <- err
+			// (a variable of its own: the result of the enclosing function is written when that one returns)
+			if serveErr := server.serve(lsn); serveErr != nil {
+				klog.ErrorS(serveErr, "exposed server stop", "name", server.name(), "addr", lsn.Addr())
+				closed <- serveErr
 			}
 			close(closed)
 		}()
